@@ -149,6 +149,7 @@ type Machine struct {
 	acache     map[string]smt.Result
 	sumMemo    map[string]*summary
 	sumDepth   int
+	stack      []string
 
 	writeHook func(c *Cell, old, new Value)
 	readHook  func(c *Cell)
@@ -197,10 +198,25 @@ func (m *Machine) end(status, msg string) {
 
 func (m *Machine) notEnc(format string, a ...interface{}) {
 	msg := fmt.Sprintf(format, a...)
+	if n := len(m.stack); n > 0 {
+		lo := n - 3
+		if lo < 0 {
+			lo = 0
+		}
+		msg += " [in " + strings.Join(m.stack[lo:], " < ") + "]"
+	}
 	m.end("notenc", msg)
 }
 
 func (m *Machine) goPanic(msg string) {
+	if len(m.stack) > 0 {
+		n := len(m.stack)
+		lo := n - 4
+		if lo < 0 {
+			lo = 0
+		}
+		msg += " [in " + strings.Join(m.stack[lo:], " < ") + "]"
+	}
 	panic(&goPanicT{msg: msg})
 }
 
@@ -223,6 +239,7 @@ func (m *Machine) RunPath(h *ssa.Function, prefix []int) (res PathResult, pendin
 	m.hashApps = nil
 	m.ext = map[string]interface{}{}
 	m.curDeferFrame, m.permuteMaps, m.clockReads = nil, false, nil
+	m.stack = m.stack[:0]
 	m.Harness = h.Name()
 
 	func() {
@@ -652,6 +669,8 @@ func (m *Machine) callFnBody(fn *ssa.Function, args []Value, env []Value) Value 
 		m.end("unwind", "call depth > 400 in "+fi.name)
 	}
 	m.Stats.FuncsEncoded[fi.name]++
+	m.stack = append(m.stack, fi.name)
+	defer func(n int) { m.stack = m.stack[:n] }(len(m.stack) - 1)
 	lay := m.layout(fn)
 	fr := &frame{fn: fn, locals: make([]Value, len(lay)), lay: lay, env: env}
 	for i, p := range fn.Params {
